@@ -12,7 +12,8 @@
             | (letrec ((ID (ID..) <core>)..) <core>) | (match <core> (<pat> <core>)..) | (cast <core>)
    <lit>  ::= (i Z) | (b Z) | (f Z) | (s N..)            (f: the bit pattern as an unsigned decimal)
    <pat>  ::= (pc CTOR ID..) | (pr (FNAME ID)..) | (pv ID) | (pl <lit>)
-   <env>  ::= (env (ID (FNAME HOST)..)..)    global ID is a record of host functions, HOST ::= eff | error
+   <env>  ::= (env (ID (host (FNAME HOST)..)) | (ID (core <core>)) ..)   globals, in order: a record of host
+                                             functions (HOST ::= eff | error) or the value of a core expression
    <tags> ::= (tags (CTOR TAG)..)            numeric tag of each variant constructor (for printing);
                                              constructor 2 is the array pseudo constructor
    Numbers are decimal.  The diagnosis of a rejection is computed here (glue, not part of the
@@ -213,7 +214,8 @@ let rec diag (a : cexpr) (b : cexpr) : string =
                (if not (droppable rhs) && diag body b = "" then "drop:" ^ sn x ^ ":" ^ why_not_droppable rhs else d)
              else nonempty (diag body body')
          | _ -> generic ())
-  | LetRec (cs, body), LetRec (cs', body') ->
+  | LetRec (cs, body), LetRec (cs', body')
+    when List.for_all (fun (g, _, _) -> List.exists (fun (f, _, _) -> f = g) (clist cs)) (clist cs') ->
       let l = clist cs and l' = clist cs' in
       let kept = List.filter (fun (f, _, _) -> List.exists (fun (g, _, _) -> g = f) l') l in
       if List.length kept <> List.length l' then "mismatch:letrec-members"
@@ -223,7 +225,8 @@ let rec diag (a : cexpr) (b : cexpr) : string =
         let d = diag body body' in
         if d <> "" then d else "mismatch:letrec-side-condition"
   | LetRec (_, body), _ -> nonempty (diag body b)
-  | Match (s, ACons (PRec _, body, ANil)), _ when (match b with Match _ -> false | _ -> true) ->
+  | Match (s, ACons (PRec pfs, body, ANil)), _
+    when (match b with Match (s', ACons (PRec pfs', _, ANil)) -> not (pfs = pfs' && valid_opt s s') | _ -> true) ->
       (match s with
        | Rec (_, args) ->
            (* R3: find a field whose expression is gone although it is not droppable *)
@@ -255,13 +258,18 @@ let fuel = nat_of_int 20000
 let env_of (s : sx) : env =
   match s with
   | L (A "env" :: gs) ->
-      List.map (function
-        | L (id :: fields) ->
+      List.fold_left (fun env g ->
+        match g with
+        | L [id; L (A "host" :: fields)] ->
             (num id, VRec (List.map (function
                | L [f; A "eff"] -> (num f, VHost HEff)
                | L [f; A "error"] -> (num f, VHost HError)
-               | _ -> failwith "bad host field") fields))
-        | _ -> failwith "bad global") gs
+               | _ -> failwith "bad host field") fields)) :: env
+        | L [id; L [A "core"; c]] ->
+            (match eval_core fop fcmp fuel env (core_of c) with
+             | (Val v, _) -> (num id, v) :: env
+             | _ -> failwith "a global module does not evaluate to a value")
+        | _ -> failwith "bad global") [] gs
   | _ -> failwith "bad env"
 
 let tags_of (s : sx) : (int * int) list =
